@@ -149,6 +149,13 @@ def run (t : Tier) : Emit Unit := do
       let ops : List MuxOp := [.add { elementaryPID := 0x100, elementaryStreamDescriptors := ds, streamType := 0x06 }, .setPCR 0x100, .tables]
       emit "C09" (DriverMux.muxCase { period := 40, ops := ops } true "mux-sections-per-descriptor-kind")
 
+  -- the ends of the tag ranges in a muxed PMT: user-defined 0x80 / 0xfe, unknown 0xff / 0x7e / 0x01
+  for tg in [0x80, 0xfe, 0xff, 0x7e, 0x01] do
+    let body ← liftGen (randBytes 6)
+    let d : Descriptor := if tg ≥ 0x80 ∧ tg ≤ 0xfe then { tag := tg, length := 6, userDefined := body } else { tag := tg, length := 6, unknown := some { content := body, tag := tg } }
+    let d2 : Descriptor := { tag := descriptorTagStreamIdentifier, streamIdentifier := some { componentTag := 7 } }
+    let ops : List MuxOp := [.add { elementaryPID := 0x100, elementaryStreamDescriptors := descsP [d, d2], streamType := 0x06 }, .setPCR 0x100, .tables]
+    emit "C09" (DriverMux.muxCase { period := 40, ops := ops } true "mux-sections-tag-range-ends")
   -- language codes that are not 3 bytes long: the field is 3 bytes on the wire (padded with 0 / truncated), and every
   -- length that is announced counts those 3 bytes
   for code in [[], [0x65], [0x65, 0x6e], [0x65, 0x6e, 0x67, 0x6c], [0x65, 0x6e, 0x67, 0x6c, 0x69]] do
